@@ -1,18 +1,32 @@
 // C22 (event kernel): availability profiles through the real Profile::schedule/next, LegacyUpdateCb repetition (ProfileBuilder.cpp) and FutureEvtSet
-// (binary heap). P_MODE 0: one periodic profile of P_N points, P_POPS events are popped: dates and values are those of the pattern, period after period.
-// P_MODE 1: two one-point periodic profiles on the same event set: events come out in non-decreasing date order, none is lost.
+// (binary heap), one kernel step at a time from a state built with the real functions:
+// P_MODE 0: a profile of P_N points (periodic unless P_LOOP=0) whose event number P_IDX is pending at an arbitrary date T; one pop_leq(date) with an arbitrary
+//           date: nothing happens before T; from T on the point P_IDX is delivered once and the next point is scheduled at T + its delta (+ loop delay when the
+//           pattern wraps); a finished non-periodic profile leaves the event set.
+// P_MODE 1: P_K resources sharing a periodic one-point profile, their events pending at arbitrary dates on one event set: the earliest one is delivered, re-scheduled one period later, none is lost
+//           and the next date is the minimum of what is pending.
+// P_MODE 2: Profile::schedule of a fresh profile: first point at its own date, event_list is the pattern repeated (pattern deltas, loop delay on each new period).
+// (Several pops in one query are not possible: pop_leq's "nothing before date" early return is merged back by the symbolic executor and makes every container
+//  size symbolic afterwards; the state after k pops is therefore built directly -- idx = k, the date any T -- which covers all histories leading to it.)
 #define VERIF_COMMON_STUBS
 #include "verif.h"
 #include "src/kernel/resource/profile/ProfileBuilder.cpp"
 #include "simgrid/s4u/Engine.hpp"
+#include "src/kernel/resource/profile/Event.hpp"
 using namespace simgrid::kernel::profile;
 #ifndef P_N
 #define P_N 2
 #endif
-#ifndef P_POPS
-#define P_POPS 5
+#ifndef P_IDX
+#define P_IDX 0
 #endif
-static Profile* mk_profile(int n, double* delta, double* value, double loop_delay)
+#ifndef P_LOOP
+#define P_LOOP 1
+#endif
+#ifndef P_K
+#define P_K 2
+#endif
+static Profile* mk_profile(int n, double* delta, double* value, double loop_delay, bool loop)
 {
   auto* cb = static_cast<LegacyUpdateCb*>(calloc(1, sizeof(LegacyUpdateCb)));
   new (&cb->pattern) std::vector<StochasticDatedValue>();
@@ -25,11 +39,10 @@ static Profile* mk_profile(int n, double* delta, double* value, double loop_dela
     sv.value_params = {value[i]};
     cb->pattern.push_back(sv);
   }
-  cb->loop       = true;
+  cb->loop       = loop;
   cb->loop_delay = loop_delay;
   auto* p        = static_cast<Profile*>(calloc(1, sizeof(Profile)));
   new (&p->event_list) std::vector<DatedValue>();
-  p->event_list.reserve(16);
   new (&p->name) std::string();
   new (&p->cb) std::function<ProfileBuilder::UpdateCb>(std::cref(*cb));
   p->repeat_delay = cb->get_repeat_delay();
@@ -42,56 +55,112 @@ static double nd_nonneg(double max)
   ASSUME(x >= 0.0 && x <= max);
   return x;
 }
+// the event of profile p, number idx of its list, pending at date T (what Profile::next leaves behind after idx deliveries)
+static Event* pending(FutureEvtSet* fes, Profile* p, unsigned idx, simgrid::kernel::resource::Resource* r, double T)
+{
+  auto* ev     = new Event();
+  ev->profile  = p;
+  ev->idx      = idx;
+  ev->resource = r;
+  ev->free_me  = false;
+  p->fes_      = fes;
+  p->get_enough_events(idx);
+  fes->add_event(T, ev);
+  return ev;
+}
 
 extern "C" void harness_profile()
 {
   new (&simgrid::s4u::Engine::on_platform_created) simgrid::xbt::signal<void()>(); // (static initialisers are not run)
-  auto* fes = new FutureEvtSet();
+  auto* fes    = new FutureEvtSet();
   double value = -1.0;
   simgrid::kernel::resource::Resource* res = nullptr;
-#if P_MODE == 0
+#if P_MODE == 0 || P_MODE == 2
   double delta[P_N], val[P_N];
   for (int i = 0; i < P_N; i++) {
     delta[i] = nd_nonneg(1e12); // time since the previous point of the pattern (the builder stores differences)
     val[i]   = nd_nonneg(1e12);
   }
   double L   = nd_nonneg(1e12); // delay between the last point of a period and the first point of the next one
-  Profile* p = mk_profile(P_N, delta, val, L);
+  Profile* p = mk_profile(P_N, delta, val, L, P_LOOP);
   auto* r0   = reinterpret_cast<simgrid::kernel::resource::Resource*>(&delta[0]);
-  p->schedule(fes, r0);
-  double expected = delta[0];
-  for (int k = 0; k < P_POPS; k++) {
-    CHECK(fes->next_date() == expected, "the next change of the resource is dated exactly previous date + pattern delta (+ the loop delay at each new period)");
-    Event* ev = fes->pop_leq(1e300, &value, &res);
-    CHECK(ev != nullptr && res == r0, "the event of the resource is delivered");
-    CHECK(value == val[k % P_N], "each point of the pattern is applied once per period, in order");
-    int nx   = (k + 1) % P_N;
-    expected = expected + (nx == 0 ? delta[0] + L : delta[nx]);
+#endif
+#if P_MODE == 2
+  Event* ev = p->schedule(fes, r0);
+  CHECK(fes->next_date() == delta[0], "the first point of a profile is scheduled at its own date");
+  CHECK(ev->idx == 0 && ev->profile == p && ev->resource == r0 && not ev->free_me, "the scheduled event designates the first point of this profile for this resource");
+  for (int round = 0; round < 2; round++) {
+    size_t sz = p->event_list.size();
+    CHECK(sz == static_cast<size_t>(P_N) * (round + 1), "each refill appends exactly one period");
+    for (size_t i = 0; i < sz; i++) {
+      CHECK(p->event_list[i].value_ == val[i % P_N], "the event list repeats the values of the pattern in order");
+      CHECK(p->event_list[i].date_ == ((i % P_N == 0 && i > 0) ? delta[0] + L : delta[i % P_N]),
+            "the event list repeats the deltas of the pattern, plus the loop delay on the first point of each new period");
+    }
+    bool more = p->get_enough_events(sz);
+    CHECK(more == (P_LOOP != 0), "a periodic profile always has a next event, a one-shot profile ends after its pattern");
+    if (not more)
+      break;
+  }
+#elif P_MODE == 0
+  double T    = nd_nonneg(1e12);
+  double date = nondet_double();
+  ASSUME(date >= 0.0 && date <= 2e12);
+  Event* ev = pending(fes, p, P_IDX, r0, T);
+  CHECK(fes->next_date() == T, "the next change of the resource is the pending point");
+  Event* got = fes->pop_leq(date, &value, &res);
+  if (date < T) {
+    CHECK(got == nullptr && fes->next_date() == T && ev->idx == P_IDX, "nothing is delivered before its date");
+  } else {
+    CHECK(got == ev && res == r0, "the pending point is delivered to its resource once its date is reached");
+    CHECK(value == val[P_IDX % P_N], "each point of the pattern is applied once per period, in order");
+    int nx = (P_IDX + 1) % P_N;
+    if (P_LOOP || P_IDX + 1 < P_N) {
+      CHECK(fes->next_date() == T + (nx == 0 ? delta[0] + L : delta[nx]),
+            "the following point is scheduled exactly its delta after this one (plus the loop delay when the pattern starts over)");
+      CHECK(ev->idx == P_IDX + 1 && not ev->free_me, "the event now designates the following point");
+    } else {
+      CHECK(fes->next_date() == -1.0 && ev->free_me, "a one-shot profile leaves the event set after its last point");
+    }
+    CHECK(fes->heap_.size() == ((P_LOOP || P_IDX + 1 < P_N) ? 1u : 0u), "the event is pending at most once: a point is not delivered twice");
   }
 #else
-  double d1 = nd_nonneg(1e12), d2 = nd_nonneg(1e12), v1 = nd_nonneg(10), v2 = nd_nonneg(10), L1 = nd_nonneg(1e12), L2 = nd_nonneg(1e12);
-  ASSUME(d1 + L1 > 0.0 && d2 + L2 > 0.0);
-  Profile* p1 = mk_profile(1, &d1, &v1, L1);
-  Profile* p2 = mk_profile(1, &d2, &v2, L2);
-  auto* r1    = reinterpret_cast<simgrid::kernel::resource::Resource*>(&d1);
-  auto* r2    = reinterpret_cast<simgrid::kernel::resource::Resource*>(&d2);
-  p1->schedule(fes, r1);
-  p2->schedule(fes, r2);
-  double last = 0.0, e1 = d1, e2 = d2; // next expected date of each profile
-  for (int k = 0; k < P_POPS; k++) {
-    double nd = fes->next_date();
-    CHECK(nd >= last, "changes come out in non-decreasing date order");
-    CHECK(nd == (e1 <= e2 ? e1 : e2), "the next change is the earliest pending point of any profile: none is skipped");
-    Event* ev = fes->pop_leq(1e300, &value, &res);
-    CHECK(ev != nullptr && (res == r1 || res == r2), "an event is delivered to its resource");
-    if (res == r1) {
-      CHECK(nd == e1 && value == v1, "profile 1: its point, at its date");
-      e1 = e1 + (d1 + L1);
-    } else {
-      CHECK(nd == e2 && value == v2, "profile 2: its point, at its date");
-      e2 = e2 + (d2 + L2);
-    }
-    last = nd;
+  // one periodic one-point profile shared by P_K resources, each with its own event pending at its own date (which event pop_leq picks is symbolic: with one
+  // profile per event the profile it advances is symbolic too and its refill is out of reach -- measured, 11 GB without a verdict)
+  double d[P_K], v[P_K], Lk[P_K], T[P_K];
+  Event* e[P_K];
+  d[0]       = nd_nonneg(1e12);
+  v[0]       = nd_nonneg(10);
+  Lk[0]      = nd_nonneg(1e12);
+  Profile* p = mk_profile(1, &d[0], &v[0], Lk[0], true);
+  p->get_enough_events(1);
+  for (int i = 0; i < P_K; i++) {
+    d[i] = d[0], v[i] = v[0], Lk[i] = Lk[0];
+    T[i] = nd_nonneg(1e12);
+    e[i] = pending(fes, p, 0, reinterpret_cast<simgrid::kernel::resource::Resource*>(&d[i]), T[i]);
+  }
+  double mn = T[0];
+  for (int i = 1; i < P_K; i++)
+    mn = T[i] < mn ? T[i] : mn;
+  CHECK(fes->next_date() == mn, "the next change is the earliest pending point of any profile");
+  Event* got = fes->pop_leq(1e300, &value, &res);
+  if (got == nullptr) {
+    CHECK(false, "an event is delivered");
+    return;
+  }
+  int who = -1;
+  for (int i = 0; i < P_K; i++)
+    if (got == e[i])
+      who = i;
+  CHECK(who >= 0 && T[who] == mn, "the delivered event is one with the earliest date: none is skipped");
+  if (who >= 0) {
+    CHECK(res == reinterpret_cast<simgrid::kernel::resource::Resource*>(&d[who]) && value == v[who], "it is delivered to its own resource with its own value");
+    double mn2 = T[who] + (d[who] + Lk[who]); // re-scheduled one period later
+    for (int i = 0; i < P_K; i++)
+      if (i != who)
+        mn2 = T[i] < mn2 ? T[i] : mn2;
+    CHECK(fes->next_date() == mn2, "afterwards the next change is the earliest of the other pending points and of the re-scheduled one: none is lost");
+    CHECK(fes->next_date() >= mn, "changes come out in non-decreasing date order");
   }
 #endif
   verif_witness();
